@@ -536,7 +536,7 @@ class FileSystemStore(DataStoreMixin):
         bundlify (bool): whether to wrap objects in bundles when saving
             them. Default: False.
         encoding (str): The encoding to use when reading a file from the
-            filesystem.
+            filesystem, and when writing one.
 
     Attributes:
         source (FileSystemSource): FileSystemSource
@@ -552,7 +552,7 @@ class FileSystemStore(DataStoreMixin):
 
         super(FileSystemStore, self).__init__(
             source=FileSystemSource(stix_dir=stix_dir, allow_custom=allow_custom_source, encoding=encoding),
-            sink=FileSystemSink(stix_dir=stix_dir, allow_custom=allow_custom_sink, bundlify=bundlify),
+            sink=FileSystemSink(stix_dir=stix_dir, allow_custom=allow_custom_sink, bundlify=bundlify, encoding=encoding),
         )
 
 
@@ -569,13 +569,16 @@ class FileSystemSink(DataSink):
             added to the FileSystemSource. Default: False
         bundlify (bool): Whether to wrap objects in bundles when saving them.
             Default: False.
+        encoding (str): The encoding to use when writing a file to the
+            filesystem.
 
     """
-    def __init__(self, stix_dir, allow_custom=False, bundlify=False):
+    def __init__(self, stix_dir, allow_custom=False, bundlify=False, encoding='utf-8'):
         super(FileSystemSink, self).__init__()
         self._stix_dir = os.path.abspath(stix_dir)
         self.allow_custom = allow_custom
         self.bundlify = bundlify
+        self.encoding = encoding
 
         if not os.path.exists(self._stix_dir):
             raise ValueError("directory path for STIX data does not exist")
@@ -667,7 +670,7 @@ class FileSystemSink(DataSink):
         # refused, nothing of it must have been written.
         writes = []
         for stix_obj in self._parse_all(stix_data, version):
-            write = self._prepare_write(stix_obj, pretty=pretty)
+            write = self._prepare_write(stix_obj, encoding=self.encoding, pretty=pretty)
             if any(write[1] == other[1] for other in writes):
                 raise DataSourceError("Attempted to overwrite file (!) at: {}".format(write[1]))
             writes.append(write)
